@@ -97,6 +97,55 @@ def negotiateCheck (dialed : Option PeerId) (proven : PeerId) : Except NegErr Pe
   | some d => if d ≠ proven then .error .peerIdMismatch else .ok proven
   | none => .ok proven
 
+/-! ## Where `dialed` comes from: the address handed to `TcpTransport::open` / `dial` -/
+
+/-- Host component of a dialed address: every family `multiaddr_to_socket_address` accepts. -/
+inductive Host where
+  | ip4 | ip6 | dns | dns4 | dns6
+  deriving DecidableEq, Repr
+
+/-- Component of a dialed multiaddress, as far as the TCP address parser tells them apart. -/
+inductive AddrComp where
+  | host (h : Host)
+  | tcp
+  | p2p (peer : PeerId)
+  | other
+  deriving DecidableEq, Repr
+
+abbrev DialedAddr := List AddrComp
+
+/-- `TcpAddress::multiaddr_to_socket_address` (`transport/common/listener.rs`): a host of any family,
+`/tcp`, then nothing or `/p2p/<peer>` (what follows the `/p2p` is not looked at). `none` = `AddressError`.
+For `/dns*/` hosts the socket address is resolved later (`AddressType::Dns`), for `/ip*/` it is immediate
+(`AddressType::Socket`) — the optional peer is parsed the same way in both cases. -/
+def parseDialed : DialedAddr → Option (Host × Option PeerId)
+  | [.host h, .tcp] => some (h, none)
+  | .host h :: .tcp :: .p2p p :: _ => some (h, some p)
+  | _ => none
+
+/-- The dialed-peer expectation of an address: its `/p2p` suffix, whatever the host component. -/
+def expectedPeer (a : DialedAddr) : Option PeerId := (parseDialed a).bind (·.2)
+
+/-- The address `TcpTransport::dial_peer` returns next to the connected stream: the multiaddress it was
+given, unchanged (`Ok((address, stream))`) — also when it had to resolve a DNS name first. -/
+def dialPeerAddress (a : DialedAddr) : DialedAddr := a
+
+/-- The two entry points of the transport. -/
+inductive Entry where
+  | open | dial
+  deriving DecidableEq, Repr
+
+/-- The `dialed_peer` argument of `TcpConnection::open_connection` (handed on to
+`negotiate_connection`): `TcpTransport::dial` parses the address before it calls `dial_peer`,
+`TcpTransport::open` parses the address `dial_peer` RETURNED. -/
+def entryDialedPeer : Entry → DialedAddr → Option PeerId
+  | .dial, a => expectedPeer a
+  | .open, a => expectedPeer (dialPeerAddress a)
+
+/-- `negotiate_connection`'s dialed-peer test as reached through an entry point of the transport. -/
+def transportCheck (e : Entry) (a : DialedAddr) (proven : PeerId) : Except NegErr PeerId :=
+  negotiateCheck (entryDialedPeer e a) proven
+
 /-! ## What an honest node sends (`NoiseContext::assemble`) -/
 
 /-- `PublicKey::Ed25519(k).to_protobuf_encoding()` -/
